@@ -4,11 +4,12 @@ Used by C08 (conservation), C12 (rate-exact, one at a time, work-conserving, cou
 visiting order), each of which picks its oracles from this module and counts these cases apart from its replayed ones.
 
 (A) RECONFIGURATION WHILE RUNNING.  A process of the harness wakes at scripted instants and assigns a public configuration
-    attribute: `rate` (all six), `priorities` of SP (re-bound to a new list, or edited in place; the list format is the one the
+    attribute: `rate` (all six), `out` (re-pointed to another recording device), `priorities` of SP (re-bound to a new list, or edited in place; the list format is the one the
     constructor builds: (flow id, priority) pairs, most urgent first), `weights` of WRR (values of the dict edited in place).
     Reading (DESIGN section 3): every clause is judged against the value the attribute has at the instant the clause refers to -
     the duration of a transmission: the rate when the transmission starts; strict priority: the table in force at the start of
-    service; the allowance of a WRR visit: the weight in force when the visit begins.  The harness knows its own schedule; a
+    service; the allowance of a WRR visit: the weight in force when the visit begins; "forwarded downstream": to the device `out` names
+    when the transmission ends.  The harness knows its own schedule; a
     clause instance that falls into the very instant of a change is not judged (either value may have been read).
 (B) RE-ENTRANT / MUTATING NEXT HOP.  The element behind the scheduler, synchronously inside its own put():
       reflect - hands the packet (the same object: a ring; or a fresh packet of the same flow: a closed-loop source or a responder)
@@ -54,7 +55,7 @@ def sorted_table(table):
 
 def gen_case(rng, cid, kind, features):
     """`features`: list of the workload features this case may draw from - out of
-    'rate', 'priorities', 'weights', 'reflect', 'relabel', 'resize' (at least one is used)"""
+    'rate', 'out', 'priorities', 'weights', 'reflect', 'relabel', 'resize' (at least one is used)"""
     nfl = rng.randint(2, 5)
     flows = rng.sample(range(10), nfl)
     big = kind == 'drr'
@@ -99,6 +100,9 @@ def gen_case(rng, cid, kind, features):
     if 'rate' in use:
         for _ in range(rng.choice([1, 1, 2])):
             c['reconf'].append({'at': instant(), 'attr': 'rate', 'value': rate * rng.choice([2, 0.5, 4, 0.25, 3, 1.5])})
+    if 'out' in use:
+        for k in range(rng.choice([1, 1, 2])):
+            c['reconf'].append({'at': instant(), 'attr': 'out', 'value': k + 1})
     if 'priorities' in use:
         cur = c['table']
         for _ in range(rng.choice([1, 1, 2])):
@@ -195,11 +199,15 @@ class DynRun:
             return orig_send(p)
 
         class Down:
+            def __init__(self, k):
+                self.k = k             # which of the devices `out` was pointed at in turn
+
             def put(self, p):
                 e = run.inside.pop(id(p), None)
                 if e is None:
                     run.bad.append((env.now, p.packet_id))
                     return
+                e['out'] = self.k
                 h = run.held[e['flow']]
                 h[0] -= 1; h[1] -= e['size']
                 run.log.append(('dep', env.now, e))
@@ -233,7 +241,8 @@ class DynRun:
                 else:
                     run.sunk.append(p)
 
-        sched.put, sched.send_packet, sched.out = put, send_packet, Down()
+        self.downs = [Down(k) for k in range(1 + sum(1 for r in c.get('reconf') or [] if r['attr'] == 'out'))]
+        sched.put, sched.send_packet, sched.out = put, send_packet, self.downs[0]
         pa = getattr(sched, 'packets_available', None)
         if pa is not None:
             # the multi-queue loops wait for the wake-up token on the public Store `packets_available` when (they find) nothing is left:
@@ -259,6 +268,8 @@ class DynRun:
                 t0 = r['at']
                 if r['attr'] == 'rate':
                     sched.rate = r['value']
+                elif r['attr'] == 'out':
+                    sched.out = run.downs[r['value']]
                 elif r['attr'] == 'priorities':
                     new = sorted_table(r['table'])
                     if r['how'] == 'rebind':
@@ -318,14 +329,14 @@ class DynRun:
         """(value of `attr` in force at instant t, instant since when, how it was installed) - None if t is itself an instant of
         change of that attribute (either value may have been read)"""
         c = self.c
-        val = (c['rate'] if attr == 'rate' else c.get('table'), 0.0, 'constructor')
+        val = (c['rate'] if attr == 'rate' else 0 if attr == 'out' else c.get('table'), 0.0, 'constructor')
         for r in c.get('reconf') or []:
             if r['attr'] != attr:
                 continue
             if r['at'] == t:
                 return None
             if r['at'] < t:
-                val = (r['value'] if attr == 'rate' else r['table'], r['at'], r.get('how') or 'assigned')
+                val = (r['value'] if attr in ('rate', 'out') else r['table'], r['at'], r.get('how') or 'assigned')
         return val
 
     def describe(self):
@@ -333,7 +344,7 @@ class DynRun:
         out = []
         if c.get('reconf'):
             out.append('changes while running: ' + '; '.join(
-                f't={r["at"]:g} {r["attr"]} ' + (f'= {r["value"]:g}' if r['attr'] == 'rate' else f'{r["how"]} {r["table"]}') for r in c['reconf']))
+                f't={r["at"]:g} {r["attr"]} ' + (f'= {r["value"]:g}' if r['attr'] == 'rate' else f'-> device #{r["value"]}' if r['attr'] == 'out' else f'{r["how"]} {r["table"]}') for r in c['reconf']))
         d = c.get('down')
         if d and d['type'] == 'reflect':
             out.append(f'next hop hands {"a fresh packet of the same flow" if d["fresh"] else "the packet"} straight back to put() from inside its own put() '
@@ -378,6 +389,17 @@ def o_conserve(run):
         if d != a[:len(d)]:
             fails.append(fail(f'{k}: packets of flow {f} left in a different order than they entered ({run.describe()})', 'dyn-flow-order'))
             break
+    # "forwarded downstream": to the device `out` names at the instant the transmission ends
+    for ev, t, e in run.log:
+        if ev == 'dep':
+            o = run.in_force('out', t)
+            if o is not None:
+                if o[1] > 0:
+                    run.stats['departures after `out` was re-pointed'] += 1
+                if e.get('out') != o[0]:
+                    fails.append(fail(f'{k}: packet {e["id"]} was handed on at t={t} to device #{e.get("out")}; `out` names device #{o[0]}'
+                                      f'{" since t=%g (re-pointed while the scheduler was running)" % o[1] if o[1] > 0 else ""} ({run.describe()})', 'dyn-wrong-next-hop'))
+                    break
     return fails
 
 
@@ -554,7 +576,7 @@ ORACLES = {'conserve': o_conserve, 'service': o_service, 'priority': o_priority,
 def cases_from_replay(path):
     j = json.load(open(path))
     cs = [j['case']] if j.get('case') else [d['case'] for d in j.get('broken_correspondence', []) if d.get('case')]
-    return [c for c in cs if isinstance(c, dict) and str(c.get('kind', '')).startswith('dyn:')]
+    return [c for c in cs if isinstance(c, dict) and str(c.get('kind', '')).startswith('dyn:') and c['kind'].split(':')[1] in KINDS]
 
 
 def run_family(ctx, prop, kinds, features, oracles, n_quick, n_thorough):
